@@ -70,9 +70,9 @@ func (d *TCGEventData) Unmarshal(r io.Reader) error {
 	if err := binary.Read(r, binary.LittleEndian, &size); err != nil {
 		return err
 	}
-	chunk := make([]byte, size)
-	if n, err := io.ReadFull(r, chunk); err != nil {
-		return fmt.Errorf("failed to read TCGEventData sized %d (read %d bytes): %w", size, n, err)
+	chunk, err := readExactly(r, uint64(size))
+	if err != nil {
+		return fmt.Errorf("failed to read TCGEventData sized %d (read %d bytes): %w", size, len(chunk), err)
 	}
 	if size >= EventSignatureSize {
 		signature := chunk[:EventSignatureSize]
